@@ -1,7 +1,7 @@
 (* Props/C09.v — Constant folding is invisible (partial: see the level note). *)
 From Coq Require Import ZArith List Bool.
 From Rscel Require Import Base.Prims Model.Value Model.Ops Model.Funcs Model.Interp Model.Ast Model.Compile.
-From Rscel Require Import Proofs.Blocks Proofs.OpsColl Proofs.Fold Proofs.Resolve.
+From Rscel Require Import Proofs.Blocks Proofs.OpsColl Proofs.Fold Proofs.Resolve Proofs.FoldSim.
 Import ListNotations.
 Import Coq.Strings.String.StringSyntax.
 Open Scope Z_scope.
@@ -127,3 +127,46 @@ Theorem C09_check_for_const_rejects_nested_errors : forall fuel node n bc v lg,
   check_for_const fuel node n = COk (mkCP (NBytecode (of_code bc)) (cp_params node)) n.
 Proof. exact check_for_const_rejects_nested_errors. Qed.
 Print Assumptions C09_check_for_const_rejects_nested_errors.
+
+(** THE SUBSTITUTION THEOREM (whole interpreter, every macro and built-in, every nested run, any fuel):
+    an evaluation on a folding environment Ef - no clock, no caller-bound functions, no stored programs -
+    that ends without having asked for a run-time input is reproduced, outcome for outcome (value, error,
+    fuel), on every environment E that extends Ef with variables, programs, a clock, has / coalesce and
+    caller-bound functions whose names replace no built-in, whatever was logged before *)
+Theorem C09_folding_is_reproduced_at_run_time : forall fuel Ef E c d lg r lg1,
+  frel Ef E -> run fuel Ef c true d lg = (r, lg1) -> runtime_requested lg1 = false ->
+  forall lg2, exists lg2', run fuel E c true d lg2 = (r, lg2').
+Proof.
+  intros fuel Ef E c d lg r lg1 HA R Hu.
+  exact (proj2 (proj2 (fold_simulation fuel Ef E c true d HA (or_introl eq_refl) lg r lg1 R)) Hu).
+Qed.
+Print Assumptions C09_folding_is_reproduced_at_run_time.
+
+(** a request for a run-time input is never forgotten during an evaluation: the compiler sees it *)
+Theorem C09_requests_are_never_forgotten : forall fuel Ef c d lg r lg1,
+  frel Ef Ef -> run fuel Ef c true d lg = (r, lg1) -> runtime_requested lg = true -> runtime_requested lg1 = true.
+Proof.
+  intros fuel Ef c d lg r lg1 HA R Hm.
+  exact (proj1 (proj2 (fold_simulation fuel Ef Ef c true d HA (or_introl eq_refl) lg r lg1 R)) Hm).
+Qed.
+Print Assumptions C09_requests_are_never_forgotten.
+
+(** hence: the value the compiler freezes is the value the bytecode it replaces evaluates to at every
+    execution, under any variables, stored programs, clock and caller-bound functions *)
+Theorem C09_frozen_constant_is_what_runs : forall fuel node n n' bc v params,
+  resolve (into_bytecode (cp_node node)) = Some bc ->
+  check_for_const fuel node n = COk (mkCP (NConst v) params) n' ->
+  forall vars progs ufs rt now lg, smap vars -> no_builtin_replaced ufs ->
+  exists lg', run fuel (mkEnv true vars progs ufs rt now) bc true O lg = (ROk v, lg').
+Proof. exact frozen_constant_is_what_runs. Qed.
+Print Assumptions C09_frozen_constant_is_what_runs.
+
+(** the premises are met by an ordinary binding, and the compiler does freeze a macro over constants *)
+Example C09_frozen_constant_example :
+  let E := mkEnv true [(#"x", VInt 5)] [(#"p", [IPush (VInt 1)])] [(#"f", UFArg0)] true (Some 1700000000000) in
+  smap (e_params E) /\ no_builtin_replaced (e_ufuncs E) /\
+  match compile_source 40 #"[1, 2, 3].map(v, v * 2)[1] + size('ab')" with
+  | COk p _ => pr_code p
+  | _ => []
+  end = [IPush (VInt 6)].
+Proof. exact frozen_constant_example. Qed.
